@@ -404,18 +404,30 @@ def judgeEv (exps : List Expect) (obs : List Obs) (ces : List ExpectCe := []) : 
     let crashes := obs.filterMap fun | .crash t => some s!"crash {t}" | _ => none
     if !crashes.isEmpty then crashes.take 1 else judgeCes ces (obs.filterMap fun | .ce t => some t | _ => none)
   else
-  if loadFailed && !(exps.any fun e => e.phase == "load") then
+  if loadFailed && ces.isEmpty && !(exps.any fun e => e.phase == "load") then
     -- the generated program did not compile: a defect of the generator, not an observation about C18
     ["setup load-failed"]
   else
     let crashes := obs.filterMap fun | .crash t => some s!"crash {t}" | _ => none
     -- a crash hides the rest of the run: report it alone (J4)
     if !crashes.isEmpty then crashes.take 1
-    else judgeEhs exps (ehsOf obs) ++ judgeObs obs [] [] ++
+    else
+      -- a case that also provokes a compile-time error (`expectce`) sees the loader's own error for the program that
+      -- did not compile: that report (no program, no trace) is not one of the recorded runtime errors
+      let isLoadErr (r : EhRec) : Bool := !ces.isEmpty && r.error.startsWith "Error_in_loading_object" && r.trace.isEmpty
+      let ehsAll := ehsOf obs
+      let keep := ehsAll.map (fun r => !isLoadErr r)
+      let sel {α : Type} (xs : List α) : List α :=
+        if xs.length = keep.length then (xs.zip keep).filterMap (fun p => if p.2 then some p.1 else none) else xs
+      let ehs := sel ehsAll
+      let dts := sel (dtsOf obs)
+      let dtas := sel (obs.filterMap fun | .dta es => some es | _ => none)
+      let rets := sel (dtRetsOf obs)
+      judgeEhs exps ehs ++ judgeObs obs [] [] ++
       -- J7 only where the log text was captured (one `dt` per reported error)
-      (if (dtsOf obs).isEmpty then [] else judgeDts exps (dtsOf obs)) ++
-      judgeDtas (dtsOf obs) (obs.filterMap fun | .dta es => some es | _ => none) ++
-      judgeDtRets exps (dtRetsOf obs) ++
+      (if dts.isEmpty then [] else judgeDts exps dts) ++
+      judgeDtas dts dtas ++
+      judgeDtRets exps rets ++
       judgeCes ces (obs.filterMap fun | .ce t => some t | _ => none)
 
 end NV.C18
